@@ -78,6 +78,7 @@ def bisect_case(case):
 
 # ------------------------------------------------------------------ Hermite
 LAT5 = [-1.5, -0.5, 0.0, 0.75, 2.0]
+FAR_INTERVALS = [(1000.0, 1000.003), (1000.003, 1000.0), (-250.3, -250.31), (-250.31, -250.3), (4096.1, 4096.7), (33.3, 33.1)]
 CUBICS = [(1, 0, 0, 0), (0, 1, 0, 0), (0, 0, 1, 0), (0, 0, 0, 1), (1, -2, 0.5, 3), (-0.25, 1, 1, -1), (2, 0, -3, 0.5)]
 
 
@@ -143,7 +144,44 @@ def hermite_case(case):
                 r.v("C17/hermite/grad", "gradient is the derivative of the value", dict(cs, q=q),
                     observed=dict(got=gg.astype(float), err=float(np.max(np.abs(gg - gw))), bound=float(np.max(gb))), expected=np.asarray(gw, dtype=float))
         r.out(("hermite", case["dtype"], len(shape), tuple(co), t1 > t0))
-    r.samples.append(dict(section="hermite", dtype=case["dtype"], shape=list(shape), cubic=list(co), intervals=20, points=37))
+    # beside the dyadic lattice around the origin: narrow intervals with ends that are not dyadic fractions, far from the origin of the time axis
+    # (|t0| / |t1 - t0| up to 4e5), of either orientation.  The cubic is P((t - t0) / (t1 - t0)) so that all four coefficients matter.
+    LD = np.longdouble
+    for (a_, b_) in FAR_INTERVALS:
+        t0r, t1r = dt(a_), dt(b_)
+        d = LD(t1r) - LD(t0r)
+        P = lambda u: co[0] + u * (co[1] + u * (co[2] + u * co[3]))
+        dP = lambda u: co[1] + u * (2 * co[2] + u * 3 * co[3])
+        p0, p1 = P(LD(0)) * scale, P(LD(1)) * scale
+        m0, m1 = dP(LD(0)) / d * scale, dP(LD(1)) / d * scale
+        c = CH(t0r, t1r, np.asarray(p0, dtype=dt), np.asarray(p1, dtype=dt), np.asarray(m0, dtype=dt), np.asarray(m1, dtype=dt))
+        cs = dict(section="hermite", dtype=case["dtype"], shape=list(shape), cubic=list(co), t0=a_, t1=b_, far=True)
+        for k in range(-10, 27):
+            tq = dt(LD(t0r) + d * LD(k) / 16)
+            u = (LD(tq) - LD(t0r)) / d
+            a = abs(u)
+            H = [2 * a ** 3 + 3 * a ** 2 + 1, a ** 3 + 2 * a ** 2 + a, 2 * a ** 3 + 3 * a ** 2, a ** 3 + a ** 2]
+            data = [np.abs(p0), abs(d) * np.abs(m0), np.abs(p1), abs(d) * np.abs(m1)]
+            # data are rounded to the working precision when the piece is built; the query itself is exact (tq is the number passed)
+            bound = 4 * K * eps * sum(h * x for h, x in zip(H, data))
+            got = np.asarray(c(tq), dtype=LD)
+            want = P(u) * scale
+            r.n += 1
+            if got.shape != np.shape(want) or np.any(np.abs(got - want) > bound):
+                r.v("C17/hermite/value-far", "cubic reproduced inside and outside the interval (narrow interval far from the origin)", dict(cs, q=float(tq)),
+                    observed=dict(err=float(np.max(np.abs(got - want))), bound=float(np.max(bound))), expected=np.asarray(want, dtype=float))
+                break
+            G = [6 * a ** 2 + 6 * a, 3 * a ** 2 + 4 * a + 1, 6 * a ** 2 + 6 * a, 3 * a ** 2 + 2 * a]
+            gb = 16 * K * eps * sum(h * x for h, x in zip(G, data)) / abs(d)
+            gg = np.asarray(c.grad(tq), dtype=LD)
+            gw = dP(u) / d * scale
+            r.n += 1
+            if gg.shape != np.shape(gw) or np.any(np.abs(gg - gw) > gb):
+                r.v("C17/hermite/grad-far", "gradient is the derivative of the value (narrow interval far from the origin)", dict(cs, q=float(tq)),
+                    observed=dict(err=float(np.max(np.abs(gg - gw))), bound=float(np.max(gb))), expected=np.asarray(gw, dtype=float))
+                break
+        r.out(("hermite-far", case["dtype"], len(shape), tuple(co), b_ > a_))
+    r.samples.append(dict(section="hermite", dtype=case["dtype"], shape=list(shape), cubic=list(co), intervals=20 + len(FAR_INTERVALS), points=37))
     return r
 
 
